@@ -41,6 +41,28 @@ def check(out, ctx):
             if (o.rustc_error is None) != (g.rustc_error is None):
                 out.violation("c13rustc:" + o.gid, "only one of the two variants compiles",
                               {"grammar": o.text, "inlined": g.text, "rustc": o.rustc_error, "rustc_inlined": g.rustc_error})
+    # the pairs are instances of the theorem's hypothesis: Subst.grel_b (original, twin) and fields_ok_b (original)
+    from .. import vp
+    tw = [g for g in st["grammars"] if g.meta.get("twin") == "inlined" and g.sexpr and gmap[g.meta["twin_of"]].sexpr]
+    reqs = []
+    for g in tw:
+        o = gmap[g.meta["twin_of"]]
+        reqs += ["grammar\t%s\t%s" % (o.gid, o.sexpr), "grammar\t%s\t%s" % (g.gid, g.sexpr), "inlrel\t%s\t%s" % (o.gid, g.gid)]
+    ans = vp.pipe_lines(ctx.model, reqs)[2::3] if reqs else []
+    related = 0
+    related_ok = 0
+    for g, a in zip(tw, ans):
+        o = gmap[g.meta["twin_of"]]
+        f = a.split("\t")
+        if f[0] != "INLREL":
+            out.broke("correspondence", "the extracted relation checker did not answer for a twin pair", {"grammar": o.text, "answer": a[:200]})
+            continue
+        if f[1] == "1":
+            related += 1
+            related_ok += f[2] == "1"
+        elif o.gen == "CODE" and g.gen == "CODE":
+            out.broke("correspondence", "a (grammar, inlined twin) pair is not in the relation of theorem C13_subst: the oracle would compare something the theorem does not speak about",
+                      {"grammar": o.text, "inlined": g.text})
     for (gid, rule, inp), c in by.items():
         g = gmap[gid]
         if g.meta.get("twin") != "inlined":
@@ -62,4 +84,5 @@ def check(out, ctx):
                            "pairs (grammar with `>Rule`, same grammar with every include replaced by the parenthesised body) x shared inputs; non-trivial = successful parse or error position > 0; distinct by (grammar, rule, input)",
                            lambda c: c.impl["k"] == "OK" or c.impl.get("pos", 0) > 0,
                            {"pairs_compared": pairs, "type_declarations_compared": types_checked,
+                            "twin_pairs_in_the_relation_of_C13_subst": related, "of_those_with_accepted_declarations": related_ok, "twin_pairs": len(tw),
                             "model_vs_implementation_disagreements": bad})
